@@ -53,6 +53,10 @@ CHECKS = {
             "TLA+ validator WsWire.tla of recorded frame streams (TLC trace validation, 16 named sender deviations rejected) + TLC-enumerated writer configuration matrix (WsWriterCfg) + handshake decision table (WsHandshake), replayed into real Conn/Dialer/Upgrader",
             "every frame the library writes is tokenised by an independent RFC 6455 parser and replayed as one step of WsWire.tla (FIN/continuation sequencing, masking by role, minimal length form, control frames <=125 and unfragmented, RSV1 only on the first frame of a compressed message, RFC 7692 tail removal, payload equality after reassembly/inflation) for sessions over role x compression level x buffer size x six write APIs x boundary sizes x partitions; the peer endpoint must return exactly the messages; Upgrade and Dial follow the RFC 6455 section 4 table with an independently computed accept key; corrupted recorded traces are shown to be rejected in every run",
             "trusted: the Go tokenizer and inflater (compress/flate), loopback TCP; payloads are patterns or seeded random bytes; deadlines, TLS, proxies, subprotocols not exercised", "5/C13"),
+    "C14": ("model_checking",
+            "TLA+ RFC 6455 receiver state machine WsReader.tla; TLC invariants + 3 named deviations; bounded-exhaustive and simulated behaviour replay (model -> code) into a real websocket.Conn with every-frame stream cuts",
+            "for every sequence of frames an arbitrary peer can send within the listed alphabets and depths (all section-5 rules one factor at a time to depth 3-4, opcode x FIN to depth 4-5, the full header product as first frame, message sizes around limits 1/125/126/1000/65535 incl. 2^63-1 / 2^63 / 2^64-1 lengths, both roles) and for random 30-frame behaviours, a real Conn delivers exactly the messages the specification's receiver delivers, fails permanently at the first rule violation and writes Close 1002, returns ErrReadLimit for any framing of an over-limit message, answers pings with identical pong payloads, and never delivers anything when the stream is cut inside a frame or an open message",
+            "trusts TLC, the LD expander, the in-memory transport and the VerifNewConn hook; compression off; minimal length forms only; payload patterns; top-bit lengths only required to fail; close code with the limit error and reason texts are free", "5/C14"),
     "C15": ("model_checking",
             "TLA+ spec WsConc.tla (write lock, close-sent latch, per-frame transport writes; TLC over all interleavings, four named deviations) + TLC-generated schedules forced on a gated transport under -race + TLC trace validation of the recorded executions",
             "in the model every interleaving of one data writer (multi-frame messages, frames of one or two transport writes), k control senders and a closer keeps the writes of a frame adjacent, puts nothing on the wire after a Close frame, makes later calls fail with close-sent and keeps data frames in order; each schedule the model allows, plus schedules that attempt the forbidden steps, is forced on the real Conn; every recorded execution (transport write order, call results, tokenised wire, messages delivered to a real peer) must be accepted by the specification and the race detector must stay silent; corrupted traces are shown to be rejected",
@@ -65,6 +69,10 @@ CHECKS = {
             "TLA+ character-class lexer spec JsonPlus.tla (TLC: strip / pass-through invariants under every read segmentation, named deviation) + TLC-enumerated and TLC-simulated documents replayed into json.Unmarshal / NewJsonPlusReader with encoding/json on the undecorated text as oracle",
             "TLC checks exhaustively that the reference stripper delivers exactly the comment-free text for every small structurally generated document under every segmentation, that the library's apostrophe regions are harmless on valid documents, and that the pre-fix end-of-string rule violates the invariant; every document of the families (all string bodies of <= 4/5 atoms, all comment bodies of <= 4/5 characters, combinations, gaps, skeletons, tokens up to 100 KB / 2 MB) and random long documents with spec-chosen reads are replayed into the real reader in two concretisations and 4-5 segmentations",
             "trusts TLC, the class abstraction (several representatives per class, not all of Unicode) and encoding/json as the standard decoder; segmentations of the real code are sampled; comments stand only between tokens", "5/C17"),
+    "C18": ("model_checking",
+            "TLA+ spec LoggerCid.tla (lock / alias / one-write; TLC over all interleavings, three named deviations) + -race trace validation of recorded executions by Trace_LoggerCid.tla",
+            "within the bounds every interleaving of the specification keeps new ids unique, aliases equal to their source, and each log call one whole line with the right prefix; recorded executions of the real package (2-64 goroutines, every level and function, every context kind) are accepted event by event by the same spec's actions (freshness of every new id, alias = source, one write per call with the passed context's cid), the race detector reports nothing in the logger package, and corrupted traces are shown to be rejected",
+            "schedules of the real code are sampled, not enumerated; ids are read back by logging each context; Info lines go to Discard by design; prefix not judged for contexts without id; trusted: Go race detector, harness tokeniser", "5/C18"),
     "C19": ("model_checking",
             "TLA+ spec HttpApi.tla (request -> handler decision table -> client verdict) checked by TLC with six named deviations; TLC-enumerated table replayed into the real handlers (ResponseRecorder) and ApiRequest over a loopback server",
             "for every row of the answer table (kinds x codes incl. negatives and 64-bit extremes x statuses x value classes incl. unmarshalable x callback forms) the real handlers through every public entry point produce the response the specification predicts, and the client half never confuses success and failure",
